@@ -11,8 +11,10 @@ From Coq Require Import List ZArith Bool.
 Import ListNotations.
 Local Open Scope Z_scope.
 
+(* (the bound is tested on Z first so that a huge position is never turned
+   into a unary number) *)
 Definition deref (v : list Z) (pos : Z) : Z :=
-  if pos <? 0 then 0 else nth (Z.to_nat pos) v 0.
+  if (pos <? 0) || (Z.of_nat (length v) <=? pos) then 0 else nth (Z.to_nat pos) v 0.
 
 (* number of leading non-zero bytes *)
 Fixpoint nz_run (l : list Z) : Z :=
@@ -23,7 +25,7 @@ Fixpoint nz_run (l : list Z) : Z :=
 
 (* smallest p >= from with deref v p = 0 *)
 Definition first_zero (v : list Z) (from : Z) : Z :=
-  from + nz_run (skipn (Z.to_nat from) v).
+  if Z.of_nat (length v) <=? from then from else from + nz_run (skipn (Z.to_nat from) v).
 
 Definition be32 (v : list Z) (pos : Z) : Z :=
   deref v pos * 16777216 + deref v (pos + 1) * 65536 + deref v (pos + 2) * 256 + deref v (pos + 3).
@@ -70,7 +72,8 @@ Fixpoint skip_args (tags : list Z) (v : list Z) (aligned pos : Z) : Z :=
 
 (* the tag characters from position [from] up to the first zero *)
 Definition tags_at (v : list Z) (from : Z) : list Z :=
-  firstn (Z.to_nat (first_zero v from - from)) (skipn (Z.to_nat from) v).
+  if Z.of_nat (length v) <=? from then []
+  else firstn (Z.to_nat (first_zero v from - from)) (skipn (Z.to_nat from) v).
 
 Definition ring_length (v : list Z) : Z :=
   if is_bundle v then bundle_length v
